@@ -67,7 +67,7 @@ class Prop(BaseProp):
             common.idx_classes(ctx, idx, len(tr))
             tr = [tr[i] for i in idx]
             sts = [full[i] for i in idx]
-            sel = {"indices": idx}
+            sel = {"indices": common.vary_indices(ctx, idx)}
         else:
             sts = full
         N = len(tr)
